@@ -4,7 +4,7 @@
 enum { K_NONE, K_JOBS, K_FDS, K_TIMERS };
 static const char *kn[] = { "nothing", "jobs", "fds", "timers" };
 static const int MS[] = { 1, 2, 5, 9 };
-static int nms, horizon, inject;
+static int nms, horizon, inject, perturb;
 static qb_loop_t *L;
 static int kind[3], mult[3];
 static int disp[3][128];        /* dispatches per level per iteration */
@@ -31,6 +31,21 @@ static void timer_cb(void *data)
 }
 static void once_cb(void *data) { (void)data; inj_done_at = loop_iterations; }
 
+/* a descriptor that is already queued for dispatch at one level is moved to another level and deleted before its turn
+   (what a rate-limit change followed by a disconnect does to an IPC connection's descriptor) */
+static int pert_fd = -1, pert_to, pert_calls;
+static int32_t pert_fd_cb(int32_t fd, int32_t revents, void *data) { (void)fd; (void)revents; (void)data; pert_calls++; return 0; }
+static void pert_job(void *data)
+{
+	int32_t r1, r2;
+	(void)data;
+	r1 = qb_loop_poll_mod(L, (enum qb_loop_priority)pert_to, pert_fd, POLLIN, NULL, pert_fd_cb);
+	r2 = qb_loop_poll_del(L, pert_fd);
+	close(pert_fd);
+	vp_log("iteration %d: queued descriptor moved to level %d (%d) and deleted (%d)", loop_iterations, pert_to, r1, r2);
+	if (r1 || r2) vp_fail("poll_mod/poll_del of a registered descriptor failed: %d %d", r1, r2);
+}
+
 static void hook(int it, int timeout)
 {
 	(void)timeout;
@@ -47,6 +62,17 @@ static void run(void)
 	vnow = 1000000000ULL; loop_iterations = 0; blocked_forever = 0; rnd_ctr = 0;
 	memset(disp, 0, sizeof disp); inj_level = -1; inj_done_at = inj_added_at = -1;
 	L = qb_loop_create();
+	pert_fd = -1; pert_calls = 0;
+	if (perturb) {
+		static const int pairs[6][2] = { { 0, 1 }, { 0, 2 }, { 1, 0 }, { 1, 2 }, { 2, 0 }, { 2, 1 } };
+		int c = vp_choose(1 + 6, "a queued descriptor is re-prioritised and deleted");
+		if (c) {
+			pert_fd = eventfd(1, EFD_NONBLOCK); pert_to = pairs[c - 1][1];
+			qb_loop_job_add(L, QB_LOOP_HIGH, NULL, pert_job);          /* first in its level: runs before the descriptor's turn */
+			if (qb_loop_poll_add(L, (enum qb_loop_priority)pairs[c - 1][0], pert_fd, POLLIN, NULL, pert_fd_cb) != 0) vp_fail("poll_add failed");
+			vp_log("a ready descriptor at level %d will be moved to level %d and deleted while queued", pairs[c - 1][0], pert_to);
+		}
+	}
 	for (p = 2; p >= 0; p--) {
 		int c = vp_choose(1 + 3 * nms, p == 2 ? "HIGH workload" : p == 1 ? "MED workload" : "LOW workload");
 		kind[p] = c == 0 ? K_NONE : 1 + (c - 1) / nms;
@@ -95,6 +121,7 @@ static void run(void)
 		for (w = from; w < horizon; w++) { a += disp[p][w] > 0; b += disp[q][w] > 0; }
 		if (b < a) vp_fail("level %d got %d turns, the lower level %d got %d over the same %d iterations", q, b, p, a, horizon - from);
 	}
+	if (pert_calls) vp_fail("the deleted descriptor's callback ran %d times", pert_calls);
 	if (inj_level >= 0 && inj_added_at > 0) {
 		if (inj_done_at < 0) vp_fail("one-shot job added at iteration %d to level %d never ran within %d iterations", inj_added_at, inj_level, horizon);
 		if (inj_done_at - inj_added_at > 4 + 9) vp_fail("one-shot job at level %d waited %d iterations", inj_level, inj_done_at - inj_added_at);
@@ -113,6 +140,7 @@ static void init(void)
 	nms = (int)vp_param("multiplicities", 3, 4);
 	horizon = (int)vp_param("iterations", 30, 60);
 	inject = (int)vp_param("inject_one_shot", 0, 1);
+	perturb = (int)vp_param("requeue_and_delete", 1, 1);
 }
 
 int main(int argc, char **argv)
